@@ -244,27 +244,31 @@ def _terminated(text):
 
 
 def _kept_lines(text):
+    """-> (terminated non-comment lines, unterminated non-comment last line or None)"""
     lines, last = split_lines(text)
     kept = [ln for ln in lines if not is_comment_line(ln)]
-    if last is not None and not is_comment_line(last):
-        kept.append(last)
-    return kept
+    if last is not None and is_comment_line(last):
+        last = None
+    return kept, last
 
 
 def _has_blank(text):
-    return any(is_blank_line(ln) for ln in _kept_lines(text))
+    """some newline-terminated data line is blank"""
+    return any(is_blank_line(ln) for ln in _kept_lines(text)[0])
 
 
 def _has_space_tab(text):
-    return any(' ' + TAB in ln for ln in _kept_lines(text))
+    kept, last = _kept_lines(text)
+    return any(' ' + TAB in ln for ln in kept) or (last is not None and ' ' + TAB in last)
 
 
 def _blank_pos_ok(text):
-    """Case split of the blank-line rule: 'last' = every blank line is at the end of the data (followed by blank
-    lines only); 'inner' = some blank line is followed by a data line."""
+    """Case split of the blank-line rule: 'last' = the text ends with its blank lines (every line after the first
+    blank line is a terminated blank line); 'inner' = anything follows a blank line (a data line, or an unterminated
+    rest)."""
     if PRE_BLANKPOS == '':
         return True
-    kept = _kept_lines(text)
+    kept, last = _kept_lines(text)
     seen_blank = False
     inner = False
     for ln in kept:
@@ -272,6 +276,8 @@ def _blank_pos_ok(text):
             seen_blank = True
         elif seen_blank:
             inner = True
+    if seen_blank and split_lines(text)[1] is not None:
+        inner = True        # an unterminated rest (data or comment) follows the blank line
     return inner == (PRE_BLANKPOS == 'inner')
 
 
@@ -313,10 +319,10 @@ def prefilter_spacetab(text: str) -> bool:
 
 def prefilter_blank(text: str) -> bool:
     """
-    A line (newline-terminated) that is empty or holds only spaces and TABs is refused.
+    A newline-terminated data line that is empty or holds only spaces and TABs is refused.
     pre: len(text) <= PRE_MAX and _pre_split(text)
     pre: all(c in PREALPHA for c in text)
-    pre: _terminated(text) and _has_blank(text) and _blank_pos_ok(text)
+    pre: _has_blank(text) and _blank_pos_ok(text)
     post: _ == True
     """
     return run_prefilter(text)[0] == 'error'
@@ -358,7 +364,7 @@ def prefilter_blank__twin(text: str) -> bool:
     """
     pre: len(text) <= PRE_MAX and _pre_split(text)
     pre: all(c in PREALPHA for c in text)
-    pre: _terminated(text) and _has_blank(text) and _blank_pos_ok(text)
+    pre: _has_blank(text) and _blank_pos_ok(text)
     post: _ == True
     """
     return not prefilter_blank(text)
